@@ -174,16 +174,36 @@ Section Protocol.
          end;
        s_ex := s_ex c; s_data := s_data c |}.
 
+  (* ---- State.new_state: two situations force a re-parse of a module whose meta is valid, because the cached lists cannot
+     tell what a fresh parse would find:
+       exist_added_packages: a suppressed dependency can now be found and is a package (__init__) - `from pkg import mod`
+         may now name a submodule;
+       exist_removed_submodules: a recorded dependency whose DIRECT parent package is also a recorded dependency can no
+         longer be found - `from pkg import mod` no longer names a module (the dependency must be dropped, not suppressed). *)
+  Variable pkg_of : modid -> stamp -> bool.              (* the file is a package __init__ *)
+  Variable parent_of : modid -> option modid.            (* direct ancestor: rsplit(".", 1) *)
+  Definition is_pkg_now (fs : FS) (d : modid) : bool :=
+    match lookup fs d with Some s => pkg_of d s | None => false end.
+  Definition reparse (c : store) (o : opts) (fs : FS) (m : modid) : bool :=
+    match load_meta c o fs m with
+    | Some (e, _) =>
+        existsb (is_pkg_now fs) (m_supp e)
+        || existsb (fun d => negb (inG fs d)
+                             && match parent_of d with Some a => mem a (m_deps e) | None => false end) (m_deps e)
+    | None => false
+    end.
+
   (* ---- load_graph: cached lists are reused for a valid meta; missing deps are suppressed,
           suppressed deps that can now be found are added back *)
   Definition cands (c : store) (o : opts) (fs : FS) (m : modid) (s : stamp) : list modid :=
     match load_meta c o fs m with
-    | Some (e, _) => m_deps e ++ m_supp e
+    | Some (e, _) => if reparse c o fs m then imports m (view_of m s) o ++ probes m (view_of m s) o
+                     else m_deps e ++ m_supp e
     | None => imports m (view_of m s) o ++ probes m (view_of m s) o
     end.
   Definition hard_cands (c : store) (o : opts) (fs : FS) (m : modid) (s : stamp) : list modid :=
     match load_meta c o fs m with
-    | Some (e, _) => m_deps e ++ m_supp e
+    | Some (e, _) => if reparse c o fs m then imports m (view_of m s) o else m_deps e ++ m_supp e
     | None => imports m (view_of m s) o
     end.
   Definition direct_deps c o fs m s := found fs (cands c o fs m s).
